@@ -44,6 +44,16 @@ func genScenario(r *hx.Rand, big bool) scenario {
 		ls = append(ls, "sever")
 		return scenario{ls}
 	}
+	if r.Intn(8) == 0 {
+		// graceful shutdown while calls are outstanding (and one call that passed the shutdown check
+		// before the shutdown was requested but is enqueued after it)
+		ls = append(ls, fmt.Sprintf("calls n=%d", 1+r.Intn(4)))
+		if r.Intn(2) == 0 {
+			ls = append(ls, "latecall")
+		}
+		ls = append(ls, "shutdown", "sever")
+		return scenario{ls}
+	}
 	ls = append(ls, fmt.Sprintf("calls n=%d", n))
 	perm := make([]int, n)
 	for i := range perm {
@@ -101,6 +111,7 @@ func genScenario(r *hx.Rand, big bool) scenario {
 }
 
 type outcome struct {
+	modelFree  bool
 	readerDied bool
 	unordered  bool
 	results []string // per caller: ok:<hex of reply> | err:<class> | stuck
@@ -126,11 +137,24 @@ func runScenario(sc scenario, rep *hx.Report) outcome {
 	var out outcome
 	markerSeen := make(chan struct{}, 4)
 	sendFailSeen := make(chan struct{}, 4)
+	var hookMu sync.Mutex
+	var lateRel, lateRch chan struct{}
+	setLate := func(rel, rch chan struct{}) { hookMu.Lock(); lateRel, lateRch = rel, rch; hookMu.Unlock() }
+	_ = setLate
 	sniproxy.VerifSetHook(func(ev sniproxy.VerifEvent) {
 		if ev.Point == "serve.fetch" && ev.ID == markerID {
 			select {
 			case markerSeen <- struct{}{}:
 			default:
+			}
+		}
+		if ev.Point == "caller.checked" && ev.Tag == "h:late" {
+			hookMu.Lock()
+			rel, rch := lateRel, lateRch
+			hookMu.Unlock()
+			if rch != nil {
+				close(rch)
+				<-rel
 			}
 		}
 		if ev.Point == "serve.send-fail" {
@@ -158,6 +182,9 @@ func runScenario(sc scenario, rep *hx.Report) outcome {
 	var mu sync.Mutex
 	var wg sync.WaitGroup
 	dead := false // reader of the client is dead (fatal frame)
+	lateIdx := -1
+	var lateRelease, lateReached chan struct{}
+	_ = lateIdx
 
 	for _, line := range sc.lines {
 		ws := strings.Fields(line)
@@ -294,10 +321,63 @@ func runScenario(sc scenario, rep *hx.Report) outcome {
 				out.note = "peer send: " + err.Error()
 			}
 			out.model = append(out.model, "reply cap=0 "+hx.Hex(frame))
+		case "latecall":
+			// a caller passes asyncCall's shutdown check and is held there; it enqueues only after
+			// the shutdown call has been sent
+			lateIdx = n
+			n++
+			results = append(results, "stuck")
+			lateRelease = make(chan struct{})
+			lateReached = make(chan struct{})
+			setLate(lateRelease, lateReached)
+			wg.Add(1)
+			go func(i int) {
+				defer wg.Done()
+				msg, err := p.Client.Hello(context.Background(), "late")
+				mu.Lock()
+				defer mu.Unlock()
+				if err == nil {
+					results[i] = "ok:" + hx.Hex([]byte(msg))
+				} else {
+					results[i] = snix.ErrClass(err)
+				}
+			}(lateIdx)
+			select {
+			case <-lateReached:
+			case <-time.After(10 * time.Second):
+				out.skipped, out.note = true, "late caller did not reach its schedule point"
+				close(lateRelease)
+				return out
+			}
+		case "shutdown":
+			out.modelFree = true // the interleaving of the shutdown with the late caller is compared by the oracle only
+			go p.Client.Close()
+			var sd snix.Req
+			okReq := false
+			for k := 0; k < 4; k++ {
+				r, ok := p.NextReq(10 * time.Second)
+				if ok && r.Typ == 0 {
+					sd, okReq = r, true
+					break
+				}
+			}
+			if !okReq {
+				out.skipped, out.note = true, "shutdown request did not arrive"
+				if lateRelease != nil {
+					close(lateRelease)
+				}
+				return out
+			}
+			if lateRelease != nil {
+				close(lateRelease) // enqueued behind the shutdown that was already sent
+				time.Sleep(30 * time.Millisecond)
+			}
+			p.Send(snix.ReplyFrame(sd.ID, 0, 0, nil)) // the endpoint acknowledges the shutdown; nothing else was answered
+			time.Sleep(30 * time.Millisecond)
 		case "sever":
 			// let the client consume what was sent before the cut (frames are ordered on the
 			// connection, and the cut is observed by the reader only after them)
-			if !dead && !sendfail {
+			if !dead && !sendfail && !out.modelFree {
 				// marker frame: wait until the serve loop has seen its fetch, so that every
 				// earlier frame has been fully handled before the cut (a TCP reset may
 				// otherwise discard frames still in flight)
@@ -385,6 +465,9 @@ func main() {
 			fmt.Println("replay:", err)
 			return
 		}
+		if len(ops) == 1 && strings.Contains(ops[0], "\n") { // a journalled scenario
+			ops = strings.Split(ops[0], "\n")
+		}
 		scs = append(scs, scenario{ops})
 	} else {
 		for _, ops := range hx.CorpusOps("C03") {
@@ -402,6 +485,8 @@ func main() {
 	type span struct{ from, to int }
 	var spans []span
 	var outs []outcome
+	jr := hx.NewJournal(f.Work)
+	defer jr.Clear()
 	t0 := time.Now()
 	budget := 2 * time.Minute
 	if f.Thorough() {
@@ -417,6 +502,7 @@ func main() {
 			rep.Note("stopping early: violations already recorded")
 			break
 		}
+		jr.Risky(strings.Join(sc.lines, "\n"))
 		o := runScenario(sc, rep)
 		if o.readerDied {
 			// the reader stopped consuming frames although no fatal frame was sent and the connection is up
@@ -465,6 +551,10 @@ func main() {
 				if strings.HasPrefix(model[i], "rejected") || model[i] == "bad-op" {
 					rejected = lines[i] + " -> " + model[i]
 				}
+			}
+			if outs[k].modelFree {
+				rep.TracesValidated++
+				continue
 			}
 			if rejected != "" {
 				rep.Disagree("transport-script", strings.Join(lines[sp.from:sp.to], " | "), got, "model rejected: "+rejected)
